@@ -190,6 +190,26 @@ pub fn check_fun(f: &Fun) -> Check {
     })
 }
 
+/// symbols whose printed names need escaping in DOT labels (library API: any `Display` symbol)
+pub const ODD_NAMES: [&str; 14] = [
+    "p\\q", "back\\", "say \"hi\"", "tab\there", "line\nbreak", "a b", "{x}", "<y>", "a|b", "semi;colon", "\u{e9}\u{20ac}", "]\"];", "[label=\"z", "'",
+];
+
+pub fn check_named(tt: &TT, names: &[String]) -> Check {
+    let cj = json!({"kind": "named", "tt": tt.to_hex(), "names": names});
+    guarded(&cj.clone(), || {
+        let env: BDDEnv<String> = BDDEnv::new();
+        let mut sorted: Vec<String> = names.to_vec();
+        sorted.sort();
+        sorted.dedup();
+        if sorted.len() != names.len() {
+            return Err(Violation::new("HARNESS: duplicate names", cj.clone()));
+        }
+        let h = plain::intern(&env, tt, names);
+        check_bdd_exports(&h, names, tt).map_err(|e| Violation::new(e, cj.clone()))
+    })
+}
+
 // ------------------------------------------------------------------ parse trees
 
 fn binop_label(op: BinOp) -> &'static str {
@@ -474,7 +494,7 @@ pub fn check_formula(text: &str, via_cli: bool) -> Check {
 }
 
 pub fn run(ctx: &mut Ctx) -> Result<(), Violation> {
-    ctx.rule = "cases = diagrams and syntax trees. Diagrams: every function of <= 3 (thorough 4) variables under two id maps, random functions of <= 8 variables, and NamedSymbol diagrams of generated formulas whose names need escaping (a', e-acute, x_1), each exported with filters Any/True/False and read back with a minimal DOT reader. \
+    ctx.rule = "cases = diagrams and syntax trees. Diagrams: every function of <= 3 (thorough 4) variables under two id maps, random functions of <= 8 variables, NamedSymbol diagrams of generated formulas (names a', e-acute, x_1) and String-symbol diagrams whose names need escaping (backslash, quote, tab, newline, braces, brackets, `\"];`), each exported with filters Any/True/False and read back with a minimal DOT reader. \
                 Oracle: each id declared once, every edge endpoint declared, no duplicate edge, Any: every test node has exactly one T and one F edge, one root, #test nodes == #structurally distinct sub-diagrams, evaluating the read-back graph under every assignment (by label) gives the source table; True/False: exactly the Any export minus the opposite leaf and minus the edges into it. \
                 Syntax trees: generated formulas with every node kind incl. references and repeated sub-terms; the DOT is read back into a term from its single root following L/R, \"\", {i}, L{i}/R{i}, If/Then/Else edges and must equal the reference parser's tree, with one node per distinct sub-term. CLI: rsbdd -d F -p F (-f t|f) files under the same oracles. \
                 Non-trivial = diagram with >= 2 test nodes, or tree with a repeated sub-term or >= 5 nodes; distinct by table+ids / canonical text."
@@ -517,6 +537,24 @@ pub fn run(ctx: &mut Ctx) -> Result<(), Violation> {
         check_fun(&f)
     });
     ctx.stage("diagrams-random-up-to-8-vars", false, r)?;
+
+    // symbols with names that need escaping (API-level symbols are arbitrary Display values)
+    let n_odd = ODD_NAMES.len() as u64;
+    let r = par_exhaustive(ctx, n_odd * n_odd * 16, |i, st| {
+        let a = ODD_NAMES[(i % n_odd) as usize].to_string();
+        let b = ODD_NAMES[((i / n_odd) % n_odd) as usize].to_string();
+        if a == b {
+            return Ok(());
+        }
+        let tt = TT::from_bits(2, i / (n_odd * n_odd));
+        st.evals(3);
+        st.class("diagram-exports-with-names-needing-escaping");
+        if tt.support().len() >= 2 && st.nontrivial(crate::util::mix(i, 14)) {
+            st.nt_sample(|| json!({"kind": "named", "tt": tt.to_hex(), "names": [a.clone(), b.clone()]}));
+        }
+        check_named(&tt, &[a, b])
+    });
+    ctx.stage("diagrams-with-names-needing-escaping", true, r)?;
 
     let cases = ctx.tier.pick(6_000, 200_000);
     let cli_every = ctx.tier.pick(60u64, 100u64);
@@ -568,6 +606,13 @@ pub fn replay(case: &Value) -> Check {
             Some(f) => check_fun(&f),
             None => Err(Violation::new("unreadable replay case", case.clone())),
         },
+        Some("named") => {
+            let names: Option<Vec<String>> = case["names"].as_array().map(|a| a.iter().filter_map(|x| x.as_str().map(|s| s.to_string())).collect());
+            match (TT::from_hex(case["tt"].as_str().unwrap_or("")), names) {
+                (Some(tt), Some(n)) if n.len() == tt.k => check_named(&tt, &n),
+                _ => Err(Violation::new("unreadable replay case", case.clone())),
+            }
+        }
         Some("formula") => match case["text"].as_str() {
             Some(t) => check_formula(t, case["cli"].as_bool().unwrap_or(false)),
             None => Err(Violation::new("unreadable replay case", case.clone())),
